@@ -114,6 +114,8 @@ func gen(t *rapid.T) Case {
 			case r == 8 && parent != "/" && groupLinks < 4:
 				groupLinks++
 				tgt = parent // link to the own parent: an ancestor cycle
+			case r == 9 && rapid.Bool().Draw(t, "toRoot"):
+				tgt = "/" // the root group itself: refused
 			}
 			op = hist.Op{K: "hard", Path: path, Target: tgt}
 		case "soft":
